@@ -5,6 +5,7 @@
    requests and only pushes peers other than the current one, so does the stream instruction built
    on it"). *)
 From Aqua Require Import Base Json Air Trace Handler Values Scalars Lens Exec RunExec ExecStreams CallSpec C19Canon ExecInv ExecStreamsInv C19Proofs C19CanonProofs.
+From Aqua Require SeqLocal NetLin NetLinCases NetLinProofs.
 Open Scope N_scope.
 Open Scope list_scope.
 
@@ -137,6 +138,24 @@ Proof.
   - intros (_ & _ & (sent & Hs & Hf)). cbn in Hs. subst sent. inversion Hf; subst. apply H1. reflexivity.
 Qed.
 
+(* ---- history level, straight-line scripts on several peers (model/NetLin.v: the approximation invariant) ----
+   Locality in EVERY honest history of a straight-line script: a request is pending at a host only for the next call
+   of the sequential reading and only at the peer that call is addressed to; the invocations (each logged with the
+   peer that executed it) are a prefix of the reading's calls, whose peer is the addressed one. *)
+Theorem C19_linear_locality : forall svc init ts ttl,
+    (NetLin.lin_pending_is_next svc init ts ttl RunExec.run1 /\ NetLin.lin_log_is_prefix svc init ts ttl RunExec.run1) /\
+    (NetLin.lin_pending_is_next svc init ts ttl ExecStreams.run2 /\ NetLin.lin_log_is_prefix svc init ts ttl ExecStreams.run2).
+Proof.
+  intros. split; (split; [apply NetLinProofs.pending_is_next_gen | apply NetLinProofs.log_is_prefix_gen]);
+    first [apply NetLinProofs.run1_step | apply NetLinProofs.run2_step].
+Qed.
+
+Example C19_linear_locality_example :
+  map SeqSem.c_peer (SeqLocal.n_log (NetLinCases.nlx_history 10)) = ["A"; "B"; "B"; "A"] /\
+  map (fun k => map (fun ph => (fst ph, map fst (SeqLocal.h_pending (snd ph)))) (SeqLocal.n_hosts (NetLinCases.nlx_history k))) [1; 3; 4; 6]%nat =
+  [[("A", [1%N]); ("B", [])]; [("A", []); ("B", [1%N])]; [("A", []); ("B", [2%N])]; [("A", [2%N]); ("B", [])]].
+Proof. vm_compute. split; reflexivity. Qed.
+
 Print Assumptions C19_requests_local.
 Print Assumptions C19_next_peers_not_self.
 Print Assumptions C19_next_peers_not_self_run1.
@@ -147,3 +166,4 @@ Print Assumptions C19_canon.
 Print Assumptions C19_call_step.
 Print Assumptions C19_full_refuted.
 Print Assumptions C19_source_tie.
+Print Assumptions C19_linear_locality.
